@@ -220,6 +220,8 @@ func (ex *Exec) callBuiltin(g *Goroutine, fr *Frame, b *builtinTarget, args []Va
 			return x.lenOr0(ex)
 		case Array:
 			return ex.i64(int64(len(x)))
+		case *ArrObj:
+			return x.N
 		case *Map:
 			return ex.mapLen(x)
 		case *Chan:
@@ -237,6 +239,8 @@ func (ex *Exec) callBuiltin(g *Goroutine, fr *Frame, b *builtinTarget, args []Va
 			return x.capOr0(ex)
 		case Array:
 			return ex.i64(int64(len(x)))
+		case *ArrObj:
+			return x.N
 		case *Chan:
 			if x == nil {
 				return ex.i64(0)
